@@ -669,6 +669,9 @@ var slotExprs = []slotExpr{
 	{`@(contact.name & "")`, func(in, name string) string { return name }},
 }
 
+// an expression that evaluates to an error (a text field plus one): it writes nothing into the query
+const failingExpr = `@(fields.not_set + 1)`
+
 const injectAssets = `{
  "flows": [{"uuid": "f1000000-0000-4000-8000-000000000001", "name": "Inject", "spec_version": "13.1.0", "language": "eng", "type": "messaging",
    "nodes": [{"uuid": "a1000000-0000-4000-8000-000000000001",
@@ -707,16 +710,25 @@ func engineQuery(tpl, in, name string) (string, error) {
 	if err != nil {
 		return "", err
 	}
+	failed := ""
 	for _, ev := range sprint.Events() {
 		switch t := ev.(type) {
 		case *events.SessionTriggeredEvent:
+			if failed != "" {
+				return t.ContactQuery, &exprError{failed}
+			}
 			return t.ContactQuery, nil
 		case *events.ErrorEvent:
-			return "", fmt.Errorf("error event: %s", t.Text)
+			failed = t.Text
 		}
 	}
 	return "", fmt.Errorf("no session_triggered event")
 }
+
+// an expression of the template failed (error event); the query the action went on with is returned alongside
+type exprError struct{ text string }
+
+func (e *exprError) Error() string { return "error event: " + e.text }
 
 // ---------------------------------------------------------------------------------------------------
 
@@ -963,6 +975,22 @@ func runCqlStreams(o *hx.Opts, res *hx.Result, r *hx.Rand) {
 			exprs[j] = slots[j].expr
 			holders[j] = fmt.Sprintf(`"zqholder%d"`, j)
 			vals[j] = slots[j].value(in, name)
+		}
+		if i%29 == 11 && i >= len(templates)*len(bsValues) {
+			// one slot holds an expression that fails: nothing can stand for its value, so the action must not go on with
+			// what is left of the query (a query with a condition missing or altered)
+			exprs[ri.Intn(k)] = failingExpr
+			flowTpl := fmt.Sprintf(tpl, exprs...)
+			text, err := engineQuery(flowTpl, in, name)
+			res.OracleChecks++
+			res.Eval(fmt.Sprintf("inject-fail/%s/%s", flowTpl, text), true)
+			if _, isExpr := err.(*exprError); isExpr && strings.TrimSpace(text) != "" {
+				res.Fail("injection:expression-error-drops-condition", failIn{Stream: "inject", Text: text, Tpl: flowTpl, Values: []string{in, name}},
+					fmt.Sprintf("flow template %q: the expression %s fails (error event), yet the action goes on with the query %q", flowTpl, failingExpr, text))
+			} else {
+				res.Dist("inject:failed-expression:query-not-used")
+			}
+			continue
 		}
 		flowTpl := fmt.Sprintf(tpl, exprs...)
 		text, err := engineQuery(flowTpl, in, name)
